@@ -62,6 +62,9 @@ pub struct FieldM {
     /// explicit short name spelled as a string literal (`short = "x"`) instead of a char literal
     #[serde(default)]
     pub short_str: bool,
+    /// k > 0: the options of the field are spread over two `#[arg(..)]` attributes, the first holding k of them
+    #[serde(default)]
+    pub arg_split: u8,
     pub default: Option<DefaultM>,
     pub value_name: Option<String>,
     pub doc: Option<DocM>,
@@ -239,13 +242,16 @@ impl Gen<'_> {
     fn doc(&mut self, about: &str) -> Option<DocM> {
         // 4: `#[allow(unused)]` between the first doc line and the rest, 5: the whole doc text after the item's own
         // attribute, 6: the item's own attribute between the first doc line and the rest
-        let style = match self.r.below(14) {
+        // 7: one `#[doc = " line\n line\n"]` attribute per paragraph, each ending in a line feed (what a block comment closed
+        // on its own line produces): the empty last line of one attribute is what separates it from the next
+        let style = match self.r.below(15) {
             0 => 1,
             1 => 2,
             2 => 3,
             3 => 4,
             4 => 5,
             5 => 6,
+            6 => 7,
             _ => 0,
         };
         self.doc_plain(about).map(|mut d| {
@@ -445,6 +451,7 @@ impl Gen<'_> {
                         short_gen: false,
                         long_gen: false,
                         short_str: false,
+                        arg_split: 0,
                         default: None,
                         value_name: None,
                         doc: None,
@@ -546,6 +553,9 @@ impl Gen<'_> {
                         f.value_name = Some(shown.clone());
                     }
                     vnames.push(shown);
+                    if self.r.chance(15) {
+                        f.arg_split = self.r.range(1, 3) as u8;
+                    }
                     f.doc = self.doc(&format!("{} in {}", fname, name));
                     fnames.push(fname);
                     v.fields.push(f);
@@ -734,6 +744,29 @@ fn emit_doc_plain(out: &mut String, indent: &str, d: &Option<DocM>) {
                 }
                 return;
             }
+            7 => {
+                // paragraphs: runs of non-empty lines; the first blank line behind a run is the run's own trailing line feed,
+                // further blank lines are attributes of their own
+                let mut i = 0;
+                while i < d.lines.len() {
+                    if d.lines[i].is_empty() {
+                        out.push_str(&format!("{}#[doc = \"\"]\n", indent));
+                        i += 1;
+                        continue;
+                    }
+                    let mut run: Vec<String> = Vec::new();
+                    while i < d.lines.len() && !d.lines[i].is_empty() {
+                        run.push(format!(" {}", d.lines[i]));
+                        i += 1;
+                    }
+                    let followed = i < d.lines.len();
+                    if followed {
+                        i += 1; // the blank line right behind the run
+                    }
+                    out.push_str(&format!("{}#[doc = \"{}{}\"]\n", indent, run.join("\\n"), if followed { "\\n" } else { "" }));
+                }
+                return;
+            }
             3 => {
                 let body: Vec<String> = d.lines.iter().map(|l| if l.is_empty() { String::new() } else { format!(" {}", l) }).collect();
                 out.push_str(&format!("{}#[doc = \"\\n{}\"]\n", indent, body.join("\\n")));
@@ -812,7 +845,14 @@ fn emit_enum(en: &EnumM, enums: &BTreeMap<String, EnumM>, groups: &BTreeMap<Stri
                 if let Some(vn) = &f.value_name {
                     a.push(format!("value_name = \"{}\"", vn));
                 }
-                let own = if a.is_empty() { String::new() } else { format!("        #[arg({})]\n", a.join(", ")) };
+                let own = if a.is_empty() {
+                    String::new()
+                } else if f.arg_split > 0 && a.len() >= 2 {
+                    let k = (f.arg_split as usize).min(a.len() - 1);
+                    format!("        #[arg({})]\n        #[arg({})]\n", a[..k].join(", "), a[k..].join(", "))
+                } else {
+                    format!("        #[arg({})]\n", a.join(", "))
+                };
                 emit_doc_around(&mut o, "        ", &f.doc, &own);
                 let ty = if f.optional { format!("Option<{}>", f.ty) } else { f.ty.clone() };
                 o.push_str(&format!("        {}: {},\n", f.name, ty));
